@@ -144,6 +144,15 @@ func runC06(c *core.Ctx) {
 		gen = &mediaGen{kind: kind}
 	} else {
 		rec.stub = func(m uint16, payload []byte) [][]byte {
+			if t.Chance(1, 3000) {
+				// a train longer than the 16-bit sequence space (tiny fragments): every counter wraps inside the call
+				out := make([][]byte, 65536+t.Intn(5000))
+				for i := range out {
+					out[i] = []byte{byte(i), byte(i >> 8)}
+				}
+				c.Probe("train-longer-than-65535")
+				return out
+			}
 			n := t.Weighted(4, 1, 3, 2)
 			switch n {
 			case 0:
